@@ -604,7 +604,7 @@ package apd
 //@   ensures [nan] NaN2(x, y, d, ret1)
 //@   ensures [infinf] old(!isnan(x) && !isnan(y) && x.Form == Infinite && y.Form == Infinite) ==> (d.Form == NaN && ret1 == InvalidOperation)
 //@   ensures [infx] old(!isnan(x) && !isnan(y) && x.Form == Infinite && y.Form != Infinite) ==> (d.Form == Infinite && d.Negative == old(x.Negative != y.Negative) && ret1 == 0)
-//@   ensures [infy] old(!isnan(x) && !isnan(y) && x.Form != Infinite && y.Form == Infinite) ==> (d.Form == Finite && val(d.Coeff) == 0 && d.Negative == old(x.Negative != y.Negative) && only(ret1, Clamped) && (ctxsane(c) ==> d.Exponent == ite(canClamp, etiny(c), 0)))
+//@   ensures [infy] old(!isnan(x) && !isnan(y) && x.Form != Infinite && y.Form == Infinite) ==> (d.Form == Finite && val(d.Coeff) == 0 && d.Negative == old(x.Negative != y.Negative) && only(ret1, Clamped) && (!canClamp ==> d.Exponent == 0 && ret1 == 0) && (canClamp && ctxsane(c) ==> d.Exponent == etiny(c)))
 //@   ensures [zerozero] old(bothfin(x, y) && iszero(y) && iszero(x)) ==> (d.Form == NaN && ret1 == DivisionUndefined)
 //@   ensures [xzero] old(bothfin(x, y) && iszero(y) && !iszero(x)) ==> (d.Form == Infinite && d.Negative == old(x.Negative != y.Negative) && ret1 == DivisionByZero)
 
@@ -703,3 +703,41 @@ package apd
 //@   fresh
 //@   assigns nothing
 //@   ensures ret.Form == Finite && ret.Negative == (old(val(coeff)) < 0) && val(ret.Coeff) == abs(old(val(coeff))) && ret.Exponent == exponent && ret != nil && writable(ret)
+
+// ---------------------------------------------------------------- QuoInteger, Rem (C10)
+
+//@ define upA(x: *Decimal, y: *Decimal): int = val(x.Coeff) * pow10(x.Exponent - min(x.Exponent, y.Exponent))
+//@ define upB(x: *Decimal, y: *Decimal): int = val(y.Coeff) * pow10(y.Exponent - min(x.Exponent, y.Exponent))
+
+//@ lemma {C10} divident(a: int, b: int): b > 0 && a >= 0 ==> a == div(a, b) * b + mod(a, b) && 0 <= mod(a, b) && mod(a, b) < b && div(a, b) >= 0
+
+//@ func (*Context).QuoInteger
+//@   props C02 C03 C05 C06 C07 C08 C10
+//@   exported
+//@   requires writable(d) && inv(x) && inv(y)
+//@   assigns d
+//@   ensures [closed] closed(ret0)
+//@   ensures [trap] ret1 != nil <==> (trapped(c, ret0) || (!old(divspecial(x, y)) && (c.Precision == 0 || old(gap(x, y)))))
+//@   ensures [nan] NaN2(x, y, d, ret0)
+//@   ensures [infinf] old(!isnan(x) && !isnan(y) && x.Form == Infinite && y.Form == Infinite) ==> (d.Form == NaN && ret0 == InvalidOperation)
+//@   ensures [infx] old(!isnan(x) && !isnan(y) && x.Form == Infinite && y.Form != Infinite) ==> (d.Form == Infinite && d.Negative == old(x.Negative != y.Negative) && ret0 == 0)
+//@   ensures [infy] old(!isnan(x) && !isnan(y) && x.Form != Infinite && y.Form == Infinite) ==> (d.Form == Finite && val(d.Coeff) == 0 && d.Negative == old(x.Negative != y.Negative) && d.Exponent == 0 && ret0 == 0)
+//@   ensures [zerozero] old(bothfin(x, y) && iszero(y) && iszero(x)) ==> (d.Form == NaN && ret0 == DivisionUndefined)
+//@   ensures [xzero] old(bothfin(x, y) && iszero(y) && !iszero(x)) ==> (d.Form == Infinite && d.Negative == old(x.Negative != y.Negative) && ret0 == DivisionByZero)
+//@   ensures [quotient] c.Precision >= 1 && old(bothfin(x, y) && !iszero(y) && !gap(x, y)) && nd10(div(old(upA(x, y)), old(upB(x, y)))) <= c.Precision ==> (d.Form == Finite && val(d.Coeff) == div(old(upA(x, y)), old(upB(x, y))) && d.Exponent == 0 && d.Negative == old(x.Negative != y.Negative) && ret0 == 0)
+//@   ensures [impossible] c.Precision >= 1 && old(bothfin(x, y) && !iszero(y) && !gap(x, y)) && nd10(div(old(upA(x, y)), old(upB(x, y)))) > c.Precision ==> (d.Form == NaN && ret0 == DivisionImpossible)
+
+//@ func (*Context).Rem
+//@   props C02 C03 C05 C06 C07 C08 C10
+//@   exported
+//@   requires writable(d) && inv(x) && inv(y)
+//@   assigns d
+//@   ensures [closed] closed(ret0)
+//@   ensures [trap] ret1 != nil <==> (trapped(c, ret0) || old(bothfin(x, y) && !iszero(y) && gap(x, y)))
+//@   ensures [nan] NaN2(x, y, d, ret0)
+//@   ensures [infx] old(!isnan(x) && !isnan(y) && x.Form == Infinite) ==> (d.Form == NaN && ret0 == InvalidOperation)
+//@   ensures [infy] wfctx(c) && old(!isnan(y) && x.Form == Finite && y.Form == Infinite) ==> Rounded(c, old(x.Negative), old(val(x.Coeff)), old(x.Exponent), d, ret0)
+//@   ensures [zerozero] old(bothfin(x, y) && iszero(y) && iszero(x)) ==> (d.Form == NaN && ret0 == DivisionUndefined)
+//@   ensures [xzero] old(bothfin(x, y) && iszero(y) && !iszero(x)) ==> (d.Form == NaN && ret0 == InvalidOperation)
+//@   ensures [remainder] wfctx(c) && old(bothfin(x, y) && !iszero(y) && !gap(x, y)) && nd10(div(old(upA(x, y)), old(upB(x, y)))) <= c.Precision ==> Rounded(c, old(x.Negative), mod(old(upA(x, y)), old(upB(x, y))), old(min(x.Exponent, y.Exponent)), d, ret0)
+//@   ensures [impossible] old(bothfin(x, y) && !iszero(y) && !gap(x, y)) && nd10(div(old(upA(x, y)), old(upB(x, y)))) > c.Precision ==> (d.Form == NaN && ret0 == DivisionImpossible)
